@@ -288,6 +288,36 @@ void barrier_prog()
     delete s2;
     delete br;
 }
+// Three participants, one of which leaves through wait_and_drop() in the first generation: what the first generation
+// leaves behind (count / threshold) decides who is released in the second one, and with it what is published.
+void barrier_drop_prog()
+{
+    auto* br = new gc::Barrier(3);
+    auto* s = new Side();
+    auto* s2 = new Side();
+    int a = spawn([br, s, s2] {
+        wr(s);
+        br->wait();
+        br->wait();
+        rd(s2, "Barrier second generation after a drop");
+    });
+    int b = spawn([br, s, s2] {
+        br->wait();
+        rd(s, "Barrier::wait (three participants)");
+        wr(s2);
+        br->wait();
+    });
+    int c = spawn([br, s] {
+        br->wait_and_drop();
+        rd(s, "Barrier::wait_and_drop");
+    });
+    join(a);
+    join(b);
+    join(c);
+    delete s;
+    delete s2;
+    delete br;
+}
 void trigger_prog()
 {
     auto* tv = new gc::TriggerVariable(true);
@@ -409,6 +439,7 @@ void make_items(const Options& o, std::vector<Item>& items)
     add(o, items, "publication: rcu_list<Box> emplace_back | traversal | erase", [] { rcu_prog(false); }, 3, 3);
     add(o, items, "publication: Latch arrive, arrive .. wait", [] { latch_prog(); });
     add(o, items, "publication: Barrier two generations", [] { barrier_prog(); });
+    add(o, items, "publication: Barrier(3), one participant drops in the first generation, second generation publishes", [] { barrier_drop_prog(); });
     add(o, items, "publication: TriggerVariable trigger .. wait / isTriggered", [] { trigger_prog(); });
     add(o, items, "publication: TriggerVariable activate .. waitActivation / isActive", [] { activation_prog(); });
     add(o, items, "publication: TripWire trigger destruction .. isTripped x3", [] { tripwire_prog(); });
